@@ -114,18 +114,23 @@ OccursInside(s, n) ==
 \* not re-implemented here; three fixed expressions are transcribed to the
 \* label vocabulary, the classes naming the labels of both vocabularies
 \* (exhaustive universe / traces) that have the shape in question:
-\*   "nondigit"  /^ads\D+\.com$/              a label "ads" + one or more
-\*                                            non-digits, directly under com
-\*   "capital"   /^Beta\.COM$/                 capital literals: still beta.com
+\*   "nondigit"  /^ads\D+\.com$/     the name's text is "ads", then one or more
+\*                                   non-digits (dots included: the run may
+\*                                   span labels), then ".com"
+\*   "capital"   /^Beta\.COM$/        capital literals: still beta.com
 \*   "named"     /^(?P<sub>ads|beta)\.org$/    named group: ads.org, beta.org
 AdsLabel     == {"a", "ads"}
 BetaLabel    == {"b", "beta"}
-AdsNonDigits == {"ar", "adsrv"}      \* "adsrv";  "a1" / "ads1" ends in a digit
+AdsNonDigits == {"ar", "adsrv"}      \* "ads" + non-digits
+AdsDigits    == {"a1", "ads1"}       \* "ads" + digits; the only labels with a digit
 ReMatches(shape, n) ==
-    /\ Len(n) = 2
-    /\ CASE shape = "nondigit" -> n[2] = "com" /\ n[1] \in AdsNonDigits
-         [] shape = "capital"  -> n[2] = "com" /\ n[1] \in BetaLabel
-         [] shape = "named"    -> n[2] = "org" /\ n[1] \in AdsLabel \cup BetaLabel
+    CASE shape = "nondigit" ->
+           /\ Len(n) >= 2 /\ n[Len(n)] = "com"
+           /\ n[1] \in AdsLabel \cup AdsNonDigits
+           /\ (Len(n) = 2 => n[1] \in AdsNonDigits)
+           /\ \A i \in 1..(Len(n) - 1) : n[i] \notin AdsDigits
+      [] shape = "capital"  -> Len(n) = 2 /\ n[2] = "com" /\ n[1] \in BetaLabel
+      [] shape = "named"    -> Len(n) = 2 /\ n[2] = "org" /\ n[1] \in AdsLabel \cup BetaLabel
 
 \* The name n, asked with query type q, is on the list because of pattern p.
 \*   exact  n0   : that very name
